@@ -446,9 +446,18 @@ func (c *Ctx) adp(which map[string]bool) {
 				var sl []ssa.Value
 				indexedSlices(st.Val, &sl, 0)
 				bad := false
+				binds := pathBindings(p)
 				for _, s := range sl {
 					v := s
-					if r, ok := loaded[s]; ok {
+					// (a helper introduced later receives the list as an argument)
+					for d := 0; d < 4; d++ {
+						b, bound := binds[v]
+						if !bound || b == v {
+							break
+						}
+						v = b
+					}
+					if r, ok := loaded[v]; ok {
 						v = r
 					}
 					if !fromCall(v, clean, map[ssa.Value]bool{}) {
@@ -733,7 +742,7 @@ func (c *Ctx) adp(which map[string]bool) {
 
 	if which["ADP-7"] {
 		a := c.acc("ADP-7", ad, "wrap-test-compares-with-the-start-of-the-range")
-		for _, b := range ad.Blocks {
+		for _, b := range c.regionBlocks(ad) {
 			for _, ins := range b.Instrs {
 				bo, ok := ins.(*ssa.BinOp)
 				if !ok || bo.Op != token.ADD || !isK(bo.Y, pm+1) {
